@@ -1,6 +1,8 @@
 import Firebolt.Properties.C01
 import Firebolt.Properties.ExecFlow
 import Firebolt.Properties.ExecNet
+import Firebolt.Generated.Source
+import Firebolt.Expected.Source
 /-!
 # C02 — Failed events reach exactly the node's own error handler, once
 Denotational part (every tree, oracle, stream); the operational part (every interleaving) is in `Properties/Exec*.lean`.
@@ -71,5 +73,11 @@ theorem tree_handler_any_global_schedule (cfg : Path → Cfg) (caps : Path → N
   obtain ⟨hG, hcfg, _⟩ := reachable_ginv cfg caps disc sched N hr
   subst hcfg
   exact (tree_handler_edge N hG p hh htp htk).1
+
+
+/-! ### functions the model's assumptions rest on (construction, wiring, surrounding calls) are unchanged -/
+theorem source_getNodeType : GeneratedSrc.getNodeType = ExpectedSrc.getNodeType := by rfl
+theorem source_invokeProcessorSync : GeneratedSrc.invokeProcessorSync = ExpectedSrc.invokeProcessorSync := by rfl
+theorem source_invokeProcessorFanout : GeneratedSrc.invokeProcessorFanout = ExpectedSrc.invokeProcessorFanout := by rfl
 
 end Firebolt.C02
